@@ -737,6 +737,11 @@ def Namespace.Consistent (ns : Namespace) : Prop :=
 
 def Api.Consistent (api : Api) : Prop := ∀ ns ∈ api.namespaces, ns.Consistent
 
+/-- the last element of a list that satisfies `p` (specification of a dictionary built by
+successive assignments: later entries win) -/
+def lastMatch (p : Route → Bool) (rs : List Route) : Option Route :=
+  rs.foldl (fun acc r => if p r then some r else acc) none
+
 /-! ### What the property says the backend sees (specification level) -/
 
 /-- a namespace shows no routes: not named by a non-empty `-w`, or named by `-b` -/
